@@ -369,6 +369,37 @@ def run(ctx):
             events.append(e)
             if e.get('sk') == 'pyexc' or e.get('gk') == 'pyexc':
                 break
+    # NEW string scalars under memory pressure: the text still fits into the free space, the record of the variable that has to
+    # be created does not (or barely), so the garbage collection falls between storing the text and creating the variable
+    # (round-3 seeded change C43c took the string pointer before that collection)
+    counter = [0]
+    npress = 0
+    for rep in range(ctx.pick(8, 80)):
+        for slack in range(-2, 14):
+            api.sess.ex('CLEAR ,%d' % rng.choice([6000, 6200, 6500]))      # (earlier variables would fill the memory for real)
+            free = None
+            for _ in range(400):                      # garbage: one variable set over and over
+                api.set('G$', bytes(rng.randint(33, 126) for _ in range(rng.randint(10, 40))))
+                f = api.call(lambda: S.evaluate('FRE(0)'))
+                if f[0] == 'ok' and f[2] is not None and 40 <= int(f[2]) <= 240 + min(slack, 0):
+                    free = int(f[2])
+                    break
+            if free is None or free - slack < 1 or free - slack > 255:
+                continue
+            counter[0] += 1
+            name = rng.choice(['N%d$', 'LONGERNAME%d$', 'Q%d$']) % counter[0]
+            x = bytes(rng.randint(33, 126) for _ in range(free - slack))
+            e = {'op': 'bytes', 'x': list(x), 'pressure': True,
+                 'shown': 'CLEAR ,small; garbage until FRE(0)=%d; set_variable(%r, <%d bytes>) (a new variable)' % (free, name, len(x))}
+            outcome(e, 's', api.set(name, x))
+            g = api.get(name)
+            outcome(e, 'g', g)
+            e['g'] = list(g[2]) if isinstance(g[2], (bytes, bytearray)) else [-1]
+            events.append(e)
+            npress += 1
+            if e.get('sk') == 'pyexc' or e.get('gk') == 'pyexc':
+                break
+    ctx.cov['new_string_scalars_created_under_memory_pressure'] = npress
     # unicode elements in a string array (documented: unicode is converted according to the codepage)
     for i in range(ctx.pick(30, 300)):
         n = rng.randint(1, 4)
